@@ -375,11 +375,20 @@ where
                 self.connection.on_incoming_end(channel, end).await?;
             }
             FrameBody::Close(close) => {
+                let close_error = close.error.clone();
                 let result = self.connection.on_incoming_close(channel, close);
                 if matches!(
                     self.connection.local_state(),
                     ConnectionState::CloseReceived
                 ) {
+                    // Publish why the connection stops before the channel to the sessions is
+                    // closed, so that a session that fails on the closure observes the peer's
+                    // close (and its error) instead of a plain `Closed`
+                    self.connection
+                        .set_connection_stop_reason(match close_error {
+                            Some(error) => ConnectionStopReason::RemoteClosedWithError(error),
+                            None => ConnectionStopReason::RemoteClosed,
+                        });
                     // The peer may be gone right behind its close: what can no longer be
                     // written must not hide what the peer's close said
                     self.outgoing_session_frames.close();
